@@ -92,6 +92,15 @@ class FormulaManager(object):
         self._do_type_check = self._do_type_check_real # type: ignore[method-assign]
         return self._do_type_check(formula)
 
+    def _check_lone_argument(self, operator: str, arg: FNode, accepts) -> FNode:
+        """An operator applied to a single argument returns the argument:
+        the argument must still be one the operator accepts."""
+        ty = self.env.stc.get_type(arg)
+        if not accepts(ty):
+            raise PysmtTypeError("%s cannot be applied to '%s' of type %s" %
+                                 (operator, str(arg), ty))
+        return arg
+
     def create_node(self, node_type: int, args: Tuple[FNode, ...], payload: Optional[Any]=None) -> FNode:
         content = FNodeContent(node_type, args, payload)
         if content in self.formulae:
@@ -166,7 +175,8 @@ class FormulaManager(object):
         """
         variables_tuple = tuple(variables)
         if len(variables_tuple) == 0:
-            return formula
+            return self._check_lone_argument("ForAll", formula,
+                                             lambda ty: ty.is_bool_type())
         return self.create_node(node_type=op.FORALL,
                                 args=(formula,),
                                 payload=variables_tuple)
@@ -181,7 +191,8 @@ class FormulaManager(object):
         """
         variables_tuple = tuple(variables)
         if len(variables_tuple) == 0:
-            return formula
+            return self._check_lone_argument("Exists", formula,
+                                             lambda ty: ty.is_bool_type())
         return self.create_node(node_type=op.EXISTS,
                                 args=(formula,),
                                 payload=variables_tuple)
@@ -191,7 +202,8 @@ class FormulaManager(object):
 
         Note: Applying a 0-arity function returns the function itself.
         """
-        if len(params) == 0:
+        if len(params) == 0 and not (vname.symbol_type().is_function_type() and
+                                     len(cast(types._FunctionType, vname.symbol_type()).param_types) > 0):
             return vname
         lpt = len(cast(types._FunctionType, vname.symbol_type()).param_types)
         if len(params) != lpt:
@@ -250,7 +262,8 @@ class FormulaManager(object):
             raise PysmtTypeError("Cannot create a Times without arguments.")
 
         if len(tuple_args) == 1:
-            return tuple_args[0]
+            return self._check_lone_argument("Times", tuple_args[0],
+                                             lambda ty: ty.is_int_type() or ty.is_real_type())
         else:
             return self.create_node(node_type=op.TIMES,
                                     args=tuple_args)
@@ -441,7 +454,8 @@ class FormulaManager(object):
         if len(tuple_args) == 0:
             return self.TRUE()
         elif len(tuple_args) == 1:
-            return tuple_args[0]
+            return self._check_lone_argument("And", tuple_args[0],
+                                             lambda ty: ty.is_bool_type())
         else:
             return self.create_node(node_type=op.AND,
                                     args=tuple_args)
@@ -460,7 +474,8 @@ class FormulaManager(object):
         if len(tuple_args) == 0:
             return self.FALSE()
         elif len(tuple_args) == 1:
-            return tuple_args[0]
+            return self._check_lone_argument("Or", tuple_args[0],
+                                             lambda ty: ty.is_bool_type())
         else:
             return self.create_node(node_type=op.OR,
                                     args=tuple_args)
@@ -481,7 +496,8 @@ class FormulaManager(object):
             raise PysmtTypeError("Cannot create a Plus without arguments.")
 
         if len(tuple_args) == 1:
-            return tuple_args[0]
+            return self._check_lone_argument("Plus", tuple_args[0],
+                                             lambda ty: ty.is_int_type() or ty.is_real_type())
         else:
             return self.create_node(node_type=op.PLUS,
                                     args=tuple_args)
@@ -708,7 +724,7 @@ class FormulaManager(object):
         args = self._polymorph_args_to_tuple(args)
         if len(args) == 0:
             raise PysmtValueError("BVAnd expects at least one argument to be passed")
-        res = args[0]
+        res = self._check_lone_argument("BVAnd", args[0], lambda ty: ty.is_bv_type())
         for arg in args[1:]:
             res = self.create_node(node_type=op.BV_AND,
                              args=(res,arg),
@@ -721,7 +737,7 @@ class FormulaManager(object):
         args = self._polymorph_args_to_tuple(args)
         if len(args) == 0:
             raise PysmtValueError("BVOr expects at least one argument to be passed")
-        res = args[0]
+        res = self._check_lone_argument("BVOr", args[0], lambda ty: ty.is_bv_type())
         for arg in args[1:]:
             res = self.create_node(node_type=op.BV_OR,
                              args=(res,arg),
@@ -792,7 +808,7 @@ class FormulaManager(object):
         args = self._polymorph_args_to_tuple(args)
         if len(args) == 0:
             raise PysmtValueError("BVAdd expects at least one argument to be passed")
-        res = args[0]
+        res = self._check_lone_argument("BVAdd", args[0], lambda ty: ty.is_bv_type())
         for arg in args[1:]:
             res = self.create_node(node_type=op.BV_ADD,
                              args=(res,arg),
@@ -811,7 +827,7 @@ class FormulaManager(object):
         args = self._polymorph_args_to_tuple(args)
         if len(args) == 0:
             raise PysmtValueError("BVMul expects at least one argument to be passed")
-        res = args[0]
+        res = self._check_lone_argument("BVMul", args[0], lambda ty: ty.is_bv_type())
         for arg in args[1:]:
             res = self.create_node(node_type=op.BV_MUL,
                              args=(res,arg),
